@@ -18,7 +18,7 @@ from hv import Case
 
 SPEC = {
     "lean_modules": ["Honeycomb.Props.C16", "Honeycomb.Props.C16Cross", "Honeycomb.Props.C16Clip", "Honeycomb.Props.C16Insert", "Honeycomb.Props.C16Grid", "Honeycomb.Props.C16Edges",
-                     "Honeycomb.Props.C16EdgeInsert"],
+                     "Honeycomb.Props.C16EdgeInsert", "Honeycomb.Props.C16Chain"],
     "required_theorems": ["C16_orientation_rejection_iff", "C16_orientation_accepts_iff_nodup", "C16_closed_loop_accepted",
                           "C16_repeated_origin_rejected", "C16_repeated_endpoint_rejected", "C16_grid_margins", "C16_grid_tight",
                           "C16_crossings_sound", "C16_crossings_on_grid_lines", "C16_crossings_complete", "C16_crossings_sorted", "C16_crossings_count", "C16_metadata_order", "C16_metadata_same_intersections", "C16_metadata_spec",
@@ -30,7 +30,9 @@ SPEC = {
                           "C16_no_vertex_on_grid_corner", "C17_no_vertex_on_grid_line",
                           "C16_walk_edge_spec", "C16_edge_of_key_spec", "C16_edge_data_spec", "C16_edge_data_order_independent",
                           "C16_buildBaseEdge_spec", "C16_markBoundary_spec", "C16_insertOneEdge_inv", "C16_insertOneEdge_shape", "C16_insert_edges_inv",
-                          "C16_pipeline_clip_hyps", "C16_pipeline_clip_WF", "C16_deleteDarts_spec", "C16_deleteDarts_order_independent",
+                          "C16_pipeline_clip_hyps", "C16_pipeline_clip_WF",
+                          "C16_steps23_carries", "C16_stepFive_carries", "C16_crossings_are_vertices", "C16_poi_are_vertices",
+                          "C17_poi_are_node_vertices", "C16_deleteDarts_spec", "C16_deleteDarts_order_independent",
                           "C16_clip_spec", "C16_clip_WF", "C16_clip_order_independent", "C16_clipLeft_spec", "C16_clipRight_spec",
                           "C16_between_crossings_one_cell"],
     "trusted_base": [
@@ -158,14 +160,23 @@ SPEC = {
         "counts, tags Left/Right/absent, opposite tags on the two sides, remaining darts live free untagged; C16_insertOneEdge_shape: chain start "
         "-> new darts -> end, the j-th point of interest is the coordinate of the vertex of the j-th intermediate dart, Node(i) anchor with the "
         "anchor storages, Left on the chain and Right on its beta2 images), the whole loop from an untagged map (C16_insert_edges_inv), hence the "
-        "hypotheses of C16_clip_WF for BOTH clips (C16_pipeline_clip_hyps) and the composition C16_pipeline_clip_WF. NOT proved: (i) that the "
-        "kernel's data satisfy the hypotheses of these theorems (start / end darts in use: they are darts of steps 2-3, tied); (ii) ONE theorem "
-        "chaining steps 1-5 on the grid (`every crossing and every retained point of interest is a vertex` is the composition, in prose, of "
-        "C16_crossings_complete / C16_metadata_spec [crossing -> slot], C16_intersection_darts_spec + C16_insert_edge_spec [slot -> dart whose "
-        "vertex carries the crossing], C16_edge_of_key_spec + C16_insertOneEdge_shape [point of interest -> intermediate of an edge -> vertex], "
-        "steps 4-5 writing coordinates only at the vertices of their own new darts); (iii) that each new edge lies inside ONE cell (geometric: "
-        "C16_between_crossings_one_cell covers the part inside one segment); (iv) that step 5 never fails (build_base_edge panics when start and "
-        "end are consecutive darts; not met on generated data); (v) f64",
+        "hypotheses of C16_clip_WF for BOTH clips (C16_pipeline_clip_hyps) and the composition C16_pipeline_clip_WF",
+        "THE CHAIN (Props/C16Chain.lean): for the modelled pipeline `pipelineMap` (steps 1-5 on the grid map, both HashMap orders universally "
+        "quantified) — C16_crossings_are_vertices: every geometry whose segments are in eps-general position, every grid: if the run succeeds, "
+        "every crossing of every segment with a grid line is a vertex of the result at the crossing point; C16_poi_are_vertices / "
+        "C17_poi_are_node_vertices: every point of interest on a chain between two crossings is a vertex at its coordinates, anchored Node(j) in "
+        "capture. Proved inside: completeness + written slot of the crossing, the ALL-EDGES induction of step 3 (insertIntersections_carries / "
+        "C16_steps23_carries: disjoint fresh blocks, frame transport of C14's per-edge facts), WF and no tag after step 3, vertex stability "
+        "(identifier and slot) through add_free_darts, build_base_edge (carries_buildBaseEdge: orbit calculus), insert_vertices_on_edge, the "
+        "placeholder replacement and mark_boundary (C16_stepFive_carries). NAMED HYPOTHESES, each with a satisfiable example and evaluated by "
+        "the `whole pipeline` tie on every case: success of the run (so step 5 does not hit the consecutive-darts panic of build_base_edge); "
+        "SideCoords (the grid map carries the side the kernel computed at every crossing dart: builder coordinates + C16_crossings_sound; "
+        "clause `position`); KeysOK (step 2 iterates distinct in-use identifier darts incl. every hit edge); EdgeDartsInUse (start / end "
+        "darts of step 4 are in use; clause `edge-darts-in-use`); OnChain (the point of interest lies on a chain leaving an intersection: "
+        "false exactly for D16a). NOT needed by these clauses and NOT proved: EdgesInOneCell (each new edge inside one cell across segment "
+        "joints: evaluated by the clause `edges-in-one-cell`; C16_between_crossings_one_cell covers one segment); that closed consistently "
+        "oriented loops crossing a grid line satisfy OnChain for all their points of interest (graph argument on new_segments, not done); "
+        "the remaining clauses of C16 (tiling, areas, sides, no negative face) stay end-to-end only; f64",
         "clip step: modelled, tied through the hook and proved on the topology (Props/C16Clip.lean: closure, error, deletion for "
         "every HashSet order, order independence, WF + 2-free boundary; mark_faces total: the loop ends within the model's fuel, "
         "error iff a closure face carries the other tag). NOT proved: totality of delete_darts (panics on a kept boundary dart "
@@ -1122,6 +1133,7 @@ def pipeline5_tie(pairs, capture, prefix):
     implementation's data): segments + slots, dart vector and map after insertion, edge data (as a set), and the final
     `wf` / `snap` (after clip / classify too) as IDENTICAL TEXT; then the map of the end-to-end call `grisubal|capture <clip>`
     must be the step-by-step one up to the numbering of the darts"""
+    import math
     cmd = "capture" if capture else "grisubal"
     icases, metas = [], []
     for k, (g, segs) in enumerate(pairs):
@@ -1183,6 +1195,40 @@ def pipeline5_tie(pairs, capture, prefix):
                   f"gins {len(edges)} " + " ".join(edges)] + tail
         mcases.append(Case(c.cid, mlines))
         keep.append((k, c, li, seg_s, slot_s, ids_s, edges, len(mlines) - len(tail)))
+        # the named hypotheses of Props/C16Chain.lean, evaluated on the implementation's own data
+        hyp = []
+        if li[2].startswith("snap"):
+            s5 = gg.parse_snap(li[2])
+            m5 = gg.Mesh(s5)
+            cxy = (Fr(gx[0]), Fr(gx[1]))
+            oxy = (Fr(gx[2]), Fr(gx[3]))
+            for (d, t), r in zip(slots, ids):
+                if t == "nan":
+                    continue
+                d, t = int(d), Fr(t)
+                cc, kk = divmod(d - 1, 4)
+                ix, iy = cc % nx, cc // nx
+                cor = [(ix, iy), (ix + 1, iy), (ix + 1, iy + 1), (ix, iy + 1)]
+                a = tuple(oxy[q] + cor[kk][q] * cxy[q] for q in (0, 1))
+                b = tuple(oxy[q] + cor[(kk + 1) % 4][q] * cxy[q] for q in (0, 1))
+                want = (a[0] + t * (b[0] - a[0]), a[1] + t * (b[1] - a[1]))
+                if not (0 < r < s5["n"]) or s5["u"][r] or m5.P[r] is None or m5.P[r][:2] != want:
+                    hyp.append(f"position: slot ({d}, {t}) has dart {r} at {m5.P[r] if 0 < r < s5['n'] else None}, not at {want}")
+            for etxt in edges:
+                tk = etxt.split()
+                a, ni, b = int(tk[0]), int(tk[1]), int(tk[-1])
+                if not (0 < a < s5["n"] and 0 < b < s5["n"]) or s5["u"][a] or s5["u"][b]:
+                    hyp.append(f"edge-darts-in-use: edge {etxt!r}")
+                    continue
+                pts = [m5.P[m5.b1[a]][:2]] + [(Fr(tk[2 + 2 * q]), Fr(tk[3 + 2 * q])) for q in range(ni)] + [m5.P[b][:2]]
+                for q in (0, 1):
+                    rel = [(pt[q] - oxy[q]) / cxy[q] for pt in pts]
+                    if math.ceil(max(rel)) - 1 > math.floor(min(rel)):
+                        hyp.append(f"edges-in-one-cell: edge {etxt!r} spans more than one cell along axis {q}")
+                        break
+        if hyp:
+            stats["oracle_failures"] += 1
+            viol("oracle", c, "; ".join(hyp[:4]), li)
         # end-to-end vs step by step, up to renumbering (implementation only)
         e2e = li[1 + len(tail):]
         step_snap = li[len(tail) - (2 if capture else 0)]
